@@ -74,3 +74,35 @@ package faults
 //@   ensures last: deref(s.faults[d.Operation][len(s.faults[d.Operation]) - 1]) == d
 //@   ensures kept: forall i int :: 0 <= i && i < len(old(s.faults[d.Operation])) ==> s.faults[d.Operation][i] == old(s.faults[d.Operation][i])
 //@   ensures others: forall o string :: o != d.Operation ==> has(s.faults, o) == old(has(s.faults, o)) && s.faults[o] == old(s.faults[o])
+
+// C18: the listing shows exactly the faults that still have injections left: every listed entry is a copy of a
+// configured descriptor with a positive remaining count, every configured descriptor with a positive count is listed
+// under its operation, and an operation without any is not listed at all (sequential reading of the counters).
+//@ func (*Set).Current(s) (ret)
+//@   property C18
+//@   uses faultspec
+//@   requires s != nil && set_wf(s)
+//@   ensures only_active: forall o string, i int :: {ret[o][i].Count} has(ret, o) && 0 <= i && i < len(ret[o]) ==> ret[o][i].Count > 0 && has(s.faults, o) &&
+//@             (exists j int :: 0 <= j && j < len(s.faults[o]) && s.faults[o][j].Count == ret[o][i].Count && s.faults[o][j].Operation == ret[o][i].Operation &&
+//@                s.faults[o][j].Parameters == ret[o][i].Parameters && s.faults[o][j].FaultDescription == ret[o][i].FaultDescription)
+//@   ensures active_listed: forall o string, j int :: {s.faults[o][j]} has(s.faults, o) && 0 <= j && j < len(s.faults[o]) && s.faults[o][j].Count > 0 ==> has(ret, o) &&
+//@             (exists i int :: 0 <= i && i < len(ret[o]) && ret[o][i].Count == s.faults[o][j].Count && ret[o][i].Operation == s.faults[o][j].Operation && ret[o][i].Parameters == s.faults[o][j].Parameters)
+//@   ensures no_empty_entries: forall o string :: {has(ret, o)} has(ret, o) ==> len(ret[o]) > 0
+//@   modifies F:faults.Set:mu*
+//@   allocates MH:string:[]faults.Description, MV:string:[]faults.Description:*, E:faults.Description:*
+//@   loop 1
+//@     invariant s != nil && ret != nil && !allocated(ret) && set_wf(s)
+//@     invariant fresh_only("MH:string:[]faults.Description", "MV:string:[]faults.Description:*", "E:faults.Description:*")
+//@     invariant only_keys_seen: forall o string :: {has(ret, o)} has(ret, o) ==> visited(o) && len(ret[o]) > 0
+//@     invariant sound: forall o string, i int :: {ret[o][i].Count} has(ret, o) && 0 <= i && i < len(ret[o]) ==> ret[o][i].Count > 0 && has(s.faults, o) &&
+//@                 (exists j int :: 0 <= j && j < len(s.faults[o]) && s.faults[o][j].Count == ret[o][i].Count && s.faults[o][j].Operation == ret[o][i].Operation &&
+//@                    s.faults[o][j].Parameters == ret[o][i].Parameters && s.faults[o][j].FaultDescription == ret[o][i].FaultDescription)
+//@     invariant complete: forall o string, j int :: {s.faults[o][j]} visited(o) && has(s.faults, o) && 0 <= j && j < len(s.faults[o]) && s.faults[o][j].Count > 0 ==> has(ret, o) &&
+//@                 (exists i int :: 0 <= i && i < len(ret[o]) && ret[o][i].Count == s.faults[o][j].Count && ret[o][i].Operation == s.faults[o][j].Operation && ret[o][i].Parameters == s.faults[o][j].Parameters)
+//@   loop 2
+//@     invariant s != nil && ret != nil && set_wf(s) && idx < len(l) && len(ll) <= idx + 1
+//@     invariant fresh_only("MH:string:[]faults.Description", "MV:string:[]faults.Description:*", "E:faults.Description:*")
+//@     invariant lsound: forall i int :: {ll[i].Count} 0 <= i && i < len(ll) ==> ll[i].Count > 0 &&
+//@                 (exists j int :: 0 <= j && j <= idx && l[j].Count == ll[i].Count && l[j].Operation == ll[i].Operation && l[j].Parameters == ll[i].Parameters && l[j].FaultDescription == ll[i].FaultDescription)
+//@     invariant lcomplete: forall j int :: {l[j]} 0 <= j && j <= idx && l[j].Count > 0 ==>
+//@                 (exists i int :: 0 <= i && i < len(ll) && ll[i].Count == l[j].Count && ll[i].Operation == l[j].Operation && ll[i].Parameters == l[j].Parameters)
